@@ -433,7 +433,7 @@ def register(reg, prog):
                           z3.Select(ex.dict_dom(s3, now), kk) == z3.Select(ex.dict_dom(s, was), kk)))))
         return g
 
-    reg.contract(MM + '._deduplicate_message', params={'message': MSG}, result=BOOL, properties=['C04'],
+    reg.contract(MM + '._deduplicate_message', params={'message': MSG}, result=BOOL, properties=['C04', 'C10'],   # C10: only CON duplicates are answered
                  requires=['mm_inv_sd(self)', 'message.remote is not None', 'message.mid is not None', 'message.mtype is not None', 'tuning_ok(message)'],
                  only_raises=True, at_exit=dd_exit, modifies=[REC],
                  ghost=lg_result('dedup', 'self', 'message'),
@@ -487,7 +487,7 @@ def register(reg, prog):
             g.append(('continues-backlog-of-this-endpoint', ev('r is message.remote', r=e[2])))
         return g
 
-    reg.contract(MM + '._remove_exchange', params={'message': MSG}, properties=['C03', 'C14'],
+    reg.contract(MM + '._remove_exchange', params={'message': MSG}, properties=['C03', 'C14', 'C02'],   # C02: a Reset must not strand the queued requests
                  requires=['mm_inv(self)', 'message.remote is not None'],
                  only_raises=True, at_exit=rm_exit, modifies=[REC, ACT, BL, '*lists'],
                  ghost=lg('_remove_exchange', 'self', 'message'),
@@ -761,7 +761,7 @@ def register(reg, prog):
         return [('exchanges-minus-endpoint', z3.Implies(z3.Not(down), z3.And(a, v))),
                 ('backlogs-minus-endpoint', z3.Implies(z3.Not(down), z3.And(b, bv)))]
 
-    reg.contract(MM + '.dispatch_error', params={'error': Ref('builtins:Exception'), 'remote': Opt(Ref('Remote'))}, properties=['C14', 'C18', 'C02'],
+    reg.contract(MM + '.dispatch_error', params={'error': Ref('builtins:Exception'), 'remote': Opt(Ref('Remote'))}, properties=['C14', 'C18', 'C02', 'C04'],      # C04: its frame keeps the deduplication state out of error handling
                  exit_lemmas=de_lemmas,
                  requires=['mm_inv_sd(self)', 'remote is not None'], only_raises=True, modifies=[ACT, BL],
                  invariants={0: [de_inv0], 1: [de_inv1]}, at_exit=de_exit,
